@@ -112,8 +112,69 @@ def rule_frag_id(chk, prog):
                         "completed although nothing was lost" % (f.path, detail or "a source that is not provably shared"))
 
 
+def rule_session_label(chk, prog, rule="LBL"):
+    """Datagrams read from a session's own socket (reverse / tproxy listener side) are addressed to the session's target: Frame::recv_from
+    labels a frame with the datagram's *source* (the client), so UdpFrameReader::read has to put the session target into frame.addr
+    after the receive.  Set before the receive it is overwritten, and every datagram but the first is forwarded to a connector that
+    honours frame addresses (SOCKS5 UDP, HTTP inline, QUIC) labelled with the client's own address."""
+    fs = [prog.body_of(f) for f in prog.fns.values() if f.crate == "redproxy_rs" and re.search(r"common::udp::UdpFrameReader as common::frames::FrameReader>::read$", f.path)]
+    if len(fs) != 1:
+        chk.anchor_missing(rule, "UdpFrameReader::read")
+        return
+    g = fs[0]
+    rc = [c for c in g.calls if re.search(r"^common::frames::Frame::recv_from$", c.name or "")]
+    if len(rc) != 1:
+        chk.anchor_missing(rule, "Frame::recv_from in UdpFrameReader::read")
+        return
+    ok_, why_, readers = select_branch_reads(prog, g, rc[0])
+    # blocks in which the branch output of the receive is read
+    rblocks = set()
+    for b in g.reachable:
+        for st in g.stmts(b):
+            if st["k"] == "assign" and len(st["lhs"]) == 1 and st["lhs"][0] in readers:
+                rblocks.add(b)
+    def src_of(op, depth=4):
+        l = op_base(op)
+        if l is None or depth <= 0:
+            return ""
+        tr = g.trace(l, through_calls=[r"clone::Clone::clone$"])
+        out = str(tr)
+        for k, info in tr:
+            if k == "agg" and info.get("ops"):
+                out += src_of(info["ops"][0], depth - 1)
+        return out
+    sets = []
+    for b in g.reachable:
+        for st in g.stmts(b):
+            if st["k"] == "assign" and "f:addr" in st["lhs"][1:]:
+                src = ""
+                if st["rv"]["k"] == "use":
+                    src = src_of(st["rv"]["a"])
+                elif st["rv"]["k"] == "agg" and st["rv"].get("ops"):
+                    src = src_of(st["rv"]["ops"][0])
+                if "f:target" in src:
+                    sets.append(b)
+    from ..flow import result_blocks
+    oks = [b for b in result_blocks(g, "Ok")]
+    ok = bool(rblocks) and bool(sets)
+    why = "reads of the receive output %d, assignments of the session target to frame.addr %d" % (len(rblocks), len(sets))
+    if ok:
+        for rb in rblocks:
+            after = g.reach_from([rb])
+            arm_oks = [b for b in oks if b in after]
+            if not arm_oks or not must_pass(g, [rb], sets, arm_oks):
+                ok = False
+                why = "on the receive arm a frame is returned without the session target being stored into frame.addr after the receive"
+    chk.instance(rule, "%s:%s" % (g.file, g.line), "UdpFrameReader::read labels each received datagram with the session target after the receive", ok, why)
+    if not ok:
+        chk.finding(rule, g.key, "session-target-label", "", "%s:%s" % (g.file, g.line),
+                    "UdpFrameReader::read does not store the session target into frame.addr after Frame::recv_from (%s): recv_from labels the frame with "
+                    "the datagram's source, so later datagrams of the session carry the client's own address as destination" % why)
+
+
 def run(chk, prog):
     rule_refill(chk, prog)
+    rule_session_label(chk, prog)
     rule_frag_id(chk, prog)
     # ---------------------------------------------------------------- LIN
     accept_fns = []
@@ -182,7 +243,29 @@ def run(chk, prog):
             else:
                 # not awaited here: the future is handed to select!; find the branch and check that its output is bound
                 top = f
-                ok, why = select_branch_reads(prog, f, c)
+                ok, why, res_locals = select_branch_reads(prog, f, c)
+            if aw and aw["result"] is not None:
+                res_locals = [aw["result"]]
+            if ok:
+                # ... and the error side really ends the read: from the Err edge of any test of the result no `Ok(Some(frame))` is built
+                # before the next receive (an error that is logged and "tolerated" would otherwise come out as an empty datagram)
+                from ..flow import option_tests, result_blocks
+                derived = set()
+                for r_ in res_locals:
+                    derived |= set(flow_forward(f, [r_], [r"easy_error::ResultExt::context$", r"Result::<T, E>::map_err$", r"Try::branch$"])[0])
+                some_blocks = set()
+                for b_ in result_blocks(f, "Ok"):
+                    for st in f.stmts(b_):
+                        if st["k"] == "assign" and st["rv"]["k"] == "agg" and st["rv"].get("variant") == "Ok" and st["rv"]["ops"] and op_base(st["rv"]["ops"][0]) is not None:
+                            tr_ = f.trace(op_base(st["rv"]["ops"][0]))
+                            if any(k == "agg" and info.get("variant") == "Some" for k, info in tr_):
+                                some_blocks.add(b_)
+                for o in option_tests(f, derived):
+                    if o["kind"] not in ("Result", "Flow", "?"):
+                        continue
+                    if some_blocks & f.reach_from([o["pos"][1]], avoid=[c.bb]):
+                        ok = False
+                        why = "after the Err edge of the receive result (%s:bb%d) a frame can still be returned" % (f.file, o["pos"][0])
             chk.instance("ERR", c.where(), "result of %s in %s is inspected before a frame is produced" % (short(c.name), f.path), ok, why)
             if not ok:
                 chk.finding("ERR", f.key, short(c.name), "", c.where(),
@@ -363,7 +446,7 @@ def run(chk, prog):
 def select_branch_reads(prog, f, recv_call):
     """the future of `recv_call` is polled by a select!; its branch output must be bound and read in f"""
     if len(recv_call.dest) != 1:
-        return False, "receive future is not stored"
+        return False, "receive future is not stored", []
     # index of the future in the select's futures tuple
     tracked, cons = flow_forward(f, [recv_call.dest[0]], [r"IntoFuture::into_future$"])
     idx = None
@@ -374,7 +457,7 @@ def select_branch_reads(prog, f, recv_call):
                     if op_base(o) in tracked:
                         idx = i
     if idx is None:
-        return False, "receive future is neither awaited nor polled by select!"
+        return False, "receive future is neither awaited nor polled by select!", []
     # output enum:  (out as _<idx>).0 must be read into a local that is then used
     var = "d:_%d" % idx
     readers = []
@@ -388,9 +471,9 @@ def select_branch_reads(prog, f, recv_call):
                 if st["rv"]["k"] in ("ref",) and var in st["rv"]["p"][1:] and len(st["lhs"]) == 1:
                     readers.append(st["lhs"][0])
     if not readers:
-        return False, "select! branch %d binds its output to `_`" % idx
+        return False, "select! branch %d binds its output to `_`" % idx, []
     for r in readers:
         tr, cons = flow_forward(f, [r], [r"easy_error::ResultExt::context$", r"Result::<T, E>::map_err$"])
         if any(kind in ("discr", "switch") or (kind == "call" and re.search(r"Try::branch$|is_err$|is_ok$", info.path or "")) for kind, b, info, l in cons):
-            return True, "select! branch %d output is bound and inspected" % idx
-    return False, "select! branch %d output is bound but never inspected" % idx
+            return True, "select! branch %d output is bound and inspected" % idx, readers
+    return False, "select! branch %d output is bound but never inspected" % idx, readers
